@@ -13,7 +13,19 @@ import (
 // ToType converts a variable-free reference type.
 func ToType(t *ref.Ty) *types.Type { return toType(t, map[string]*types.Type{}) }
 
-func toType(t *ref.Ty, vars map[string]*types.Type) *types.Type {
+func toType(t *ref.Ty, vars map[string]*types.Type) *types.Type { return toTypeM(t, vars, nil) }
+
+// toTypeM: with a memo, one *ref.Ty object listed several times (the `ln` in
+// cat :: ln -> ln -> ln) becomes one shared *types.Type node, as in host code
+// that builds `L := types.List(types.Num)` once and uses it for two parameters.
+func toTypeM(t *ref.Ty, vars map[string]*types.Type, memo map[*ref.Ty]*types.Type) (out *types.Type) {
+	if memo != nil && t.K != ref.KVar {
+		if n, ok := memo[t]; ok {
+			return n
+		}
+		defer func() { memo[t] = out }()
+	}
+	toType := func(t *ref.Ty, vars map[string]*types.Type) *types.Type { return toTypeM(t, vars, memo) }
 	switch t.K {
 	case ref.KNum:
 		return types.Num
@@ -58,11 +70,12 @@ func toType(t *ref.Ty, vars map[string]*types.Type) *types.Type {
 // variable per variable name.
 func ToFunType(name string, params []*ref.Ty, ret *ref.Ty) *types.Type {
 	vars := map[string]*types.Type{}
+	memo := map[*ref.Ty]*types.Type{}
 	ps := make([]*types.Type, len(params))
 	for i, p := range params {
-		ps[i] = toType(p, vars)
+		ps[i] = toTypeM(p, vars, memo)
 	}
-	return types.Fun(name, ps, toType(ret, vars))
+	return types.Fun(name, ps, toTypeM(ret, vars, memo))
 }
 
 // FromType reads a real type into a reference type. It never trusts the
